@@ -152,7 +152,7 @@ impl KvDatabaseFactory for MemKvFactory {
 // the sink: pause numbering, the cut gate, resource accounting from the emitted events
 // ------------------------------------------------------------------------------------------------
 #[derive(Clone, Debug, PartialEq)]
-enum Mode { Off, Count, Cut(u64) }
+enum Mode { Off, Count, Cut(u64), CutLabel(String, u64) }
 
 struct SinkState {
     mode: Mode,
@@ -173,11 +173,20 @@ struct SinkState {
     epoch_bumps: u64,
     trace: Vec<String>,
     trace_on: bool,
+    tids: HashMap<String, u64>,
+}
+/// pause labels owned by this harness (other properties' pause points are passed through untouched)
+const MY_PAUSES: &[&str] = &["q.registered", "q.loop", "q.tfc.before", "q.tfc.after", "q.wg.before", "q.wg.after", "q.processed", "r.check", "r.checked", "r.recompute", "tfc.item",
+    "x.before", "x.executed", "x.g.start", "x.g.dirty", "c.up.before", "c.g.start", "c.g.cleaned", "p.after", "cq.start", "cq.before_submit", "sc.up.before", "sc.up.after", "sc.unwired", "sc.mid",
+    "sc.before_submit", "si.start", "si.mid", "bp.up.before", "bp.g.start", "bp.g.removed", "bp.start", "bp.item", "bp.before_done", "in.set.snap", "in.set.g.start", "in.set.g.locked",
+    "in.ref.item", "in.ref.g.start", "in.ref.g.locked", "in.commit.g.start", "in.commit.g.taken", "in.commit.propagated", "is.bumped"];
+fn cur_tid(st: &mut SinkState) -> u64 {
+    match tokio::task::try_id() { None => 0, Some(id) => { let n = st.tids.len() as u64 + 1; *st.tids.entry(id.to_string()).or_insert(n) } }
 }
 impl Default for SinkState {
     fn default() -> Self {
         SinkState { mode: Mode::Off, count: 0, labels: vec![], reached: None, released: false, gate_waker: None, locks: BTreeMap::new(), bplocks: BTreeMap::new(), armed: vec![],
-            batch_new: 0, batch_submit: 0, guard_enter: 0, guard_exit: 0, guard_detach: 0, epoch_bumps: 0, trace: vec![], trace_on: false }
+            batch_new: 0, batch_submit: 0, guard_enter: 0, guard_exit: 0, guard_detach: 0, epoch_bumps: 0, trace: vec![], trace_on: false, tids: HashMap::new() }
     }
 }
 #[derive(Default)]
@@ -202,6 +211,7 @@ impl CutSink {
     fn key_of(&self, id: Option<&QueryID>) -> Option<u32> { id.and_then(|i| self.ids.read().unwrap().get(i).copied()) }
     fn reset(&self) { *self.st.lock().unwrap() = SinkState::default(); }
     fn set_mode(&self, m: Mode) { let mut st = self.st.lock().unwrap(); st.mode = m; st.count = 0; st.labels.clear(); }
+    fn mark(&self, m: &str) { let mut st = self.st.lock().unwrap(); if st.trace_on { st.trace.push(m.to_string()); } }
     fn release(&self) { let w = { let mut st = self.st.lock().unwrap(); st.released = true; st.gate_waker.take() }; if let Some(w) = w { w.wake(); } }
     fn quiescence(&self) -> Vec<String> {
         let st = self.st.lock().unwrap();
@@ -219,6 +229,13 @@ impl CutSink {
         let locks: Vec<String> = st.locks.iter().filter(|(_, c)| **c != 0).map(|(k, _)| k.to_string()).collect();
         let bps: Vec<String> = st.bplocks.iter().filter(|(_, c)| **c != 0).map(|(k, _)| k.to_string()).collect();
         format!("comp=[{}] bp=[{}] batches={}/{} guards={}/{}", locks.join(","), bps.join(","), st.batch_submit, st.batch_new, st.guard_exit, st.guard_enter)
+    }
+    /// the part of the summary the model also has
+    fn model_summary(&self) -> String {
+        let st = self.st.lock().unwrap();
+        let locks: Vec<String> = st.locks.iter().filter(|(_, c)| **c != 0).map(|(k, _)| k.to_string()).collect();
+        let bps: Vec<String> = st.bplocks.iter().filter(|(_, c)| **c != 0).map(|(k, _)| k.to_string()).collect();
+        format!("comp=[{}] bp=[{}] batches={}/{}", locks.join(","), bps.join(","), st.batch_submit, st.batch_new)
     }
 }
 struct SinkHandle(Arc<CutSink>);
@@ -240,36 +257,60 @@ impl Sink for SinkHandle {
             "guard.exit" => st.guard_exit += 1,
             "guard.detach" => st.guard_detach += 1,
             "epoch.bump" => st.epoch_bumps += 1,
+            "is.acq" | "drop.lock" | "drop.bp" => {}
             _ => return,
         }
         if st.trace_on {
+            let tid = cur_tid(&mut st);
+            let ks = k.map(|x| x.to_string()).unwrap_or("?".into());
             let line = match label {
-                "reg" => format!("reg {} {}", s.low.read().unwrap().get(&n).map(|x| x.to_string()).unwrap_or("?".into()), k.map(|x| x.to_string()).unwrap_or("?".into())),
-                "lock" | "unlock" | "bplock" | "bpunlock" | "unreg" | "defuse" => format!("{label} {}", k.map(|x| x.to_string()).unwrap_or("?".into())),
-                _ => label.to_string(),
+                "reg" => format!("{tid} reg {} {ks}", s.low.read().unwrap().get(&n).map(|x| x.to_string()).unwrap_or("?".into())),
+                "lock" | "unlock" | "bplock" | "bpunlock" | "unreg" | "defuse" => format!("{tid} {label} {ks}"),
+                "drop.lock" => { if n != 0 { return; } format!("{tid} droplock {ks}") }
+                "drop.bp" => { if n != 0 { return; } format!("{tid} dropbp {ks}") }
+                "batch.new" => format!("{tid} bnew {n}"),
+                "batch.submit" => format!("{tid} bsub"),
+                "guard.enter" => format!("{tid} genter"),
+                "guard.exit" => format!("{tid} gexit"),
+                "guard.detach" => format!("{tid} gdetach"),
+                "epoch.bump" => format!("{tid} bump"),
+                "is.acq" => format!("{tid} acq"),
+                _ => return,
             };
             st.trace.push(line);
         }
     }
     fn pause<'a>(&'a self, label: &'static str, id: Option<&'a QueryID>) -> Pin<Box<dyn Future<Output = ()> + Send + 'a>> {
         let s = &self.0;
+        if !MY_PAUSES.contains(&label) { return Box::pin(std::future::ready(())); }
         let k = s.key_of(id);
         let mut st = s.st.lock().unwrap();
         match st.mode.clone() {
             Mode::Off => {}
             Mode::Count => { st.count += 1; st.labels.push(match k { Some(k) => format!("{label}@{k}"), None => label.to_string() }); }
+            Mode::CutLabel(l, occ) => {
+                if l == label && st.reached.is_none() {
+                    st.count += 1;
+                    if st.count == occ {
+                        st.reached = Some(match k { Some(k) => format!("{label}@{k}"), None => label.to_string() });
+                        if st.trace_on { let tid = cur_tid(&mut st); let l = format!("{tid} cut {}", st.reached.clone().unwrap()); st.trace.push(l); }
+                        drop(st);
+                        s.notify.notify_one();
+                        return Box::pin(Gate(s.clone()));
+                    }
+                }
+            }
             Mode::Cut(i) => {
                 st.count += 1;
                 if st.count == i && st.reached.is_none() {
                     st.reached = Some(match k { Some(k) => format!("{label}@{k}"), None => label.to_string() });
-                    if st.trace_on { let l = format!("cut {}", st.reached.clone().unwrap()); st.trace.push(l); }
+                    if st.trace_on { let tid = cur_tid(&mut st); let l = format!("{tid} cut {}", st.reached.clone().unwrap()); st.trace.push(l); }
                     drop(st);
                     s.notify.notify_one();
                     return Box::pin(Gate(s.clone()));
                 }
             }
         }
-        if st.trace_on && st.mode != Mode::Off { let l = format!("at {label}{}", k.map(|k| format!(" {k}")).unwrap_or_default()); st.trace.push(l); }
         Box::pin(std::future::ready(()))
     }
 }
@@ -283,6 +324,8 @@ fn install_panic_hook() {
         let msg = info.payload().downcast_ref::<String>().cloned().or_else(|| info.payload().downcast_ref::<&str>().map(|s| s.to_string())).unwrap_or_else(|| "<non-string payload>".into());
         let loc = info.location().map(|l| format!("{}:{}", l.file().rsplit('/').next().unwrap_or(""), l.line())).unwrap_or_default();
         let th = std::thread::current().name().unwrap_or("?").to_string();
+        eprintln!("PANIC [{th}] {loc}: {}", msg.chars().take(200).collect::<String>());
+        if let Some(rest) = msg.strip_prefix("injected executor panic key=") { if let Some(sk) = SINK.get() { if let Ok(mut st) = sk.st.try_lock() { if st.trace_on { let tid = cur_tid(&mut st); st.trace.push(format!("{tid} panic {rest}")); } } } }
         PANICS.lock().unwrap().push(format!("[{th}] {loc}: {}", msg.chars().take(160).collect::<String>()));
     }));
 }
@@ -349,15 +392,24 @@ enum Fault {
     /// drop the target's in-flight call when pause i is reached. hold = keep a guarded continuation suspended
     /// at the cut point until one further session has been committed (only meaningful inside guarded sections)
     Cut { i: u64, hold: bool, commit_after: bool },
+    /// the same, addressed by pause label and occurrence (stable under renumbering; used by the corpus)
+    CutAt { label: String, occ: u64, hold: bool, commit_after: bool },
     /// the executor of this key panics during the target round
     Panic(u32),
 }
 impl Fault {
+    fn is_cut(&self) -> bool { matches!(self, Fault::Cut { .. } | Fault::CutAt { .. }) }
+    fn hold(&self) -> bool { matches!(self, Fault::Cut { hold: true, .. } | Fault::CutAt { hold: true, .. }) }
+    fn commit_after(&self) -> bool { match self { Fault::Cut { commit_after, .. } | Fault::CutAt { commit_after, .. } => *commit_after, _ => true } }
+    fn mode(&self) -> Mode { match self { Fault::Cut { i, .. } => Mode::Cut(*i), Fault::CutAt { label, occ, .. } => Mode::CutLabel(label.clone(), *occ), _ => Mode::Count } }
     fn render(&self) -> String {
-        match self { Fault::Count => "count".into(), Fault::Cut { i, hold, commit_after } => format!("cut {i} {} {}", if *hold { "hold" } else { "settle" }, if *commit_after { "commit" } else { "dropsession" }), Fault::Panic(k) => format!("panic {k}") }
+        match self { Fault::Count => "count".into(), Fault::Cut { i, hold, commit_after } => format!("cut {i} {} {}", if *hold { "hold" } else { "settle" }, if *commit_after { "commit" } else { "dropsession" }),
+            Fault::CutAt { label, occ, hold, commit_after } => format!("cutat {label} {occ} {} {}", if *hold { "hold" } else { "settle" }, if *commit_after { "commit" } else { "dropsession" }), Fault::Panic(k) => format!("panic {k}") }
     }
     fn parse(t: &[&str]) -> Fault {
-        match t[0] { "count" => Fault::Count, "cut" => Fault::Cut { i: t[1].parse().unwrap(), hold: t[2] == "hold", commit_after: t.get(3).map(|x| *x == "commit").unwrap_or(true) }, "panic" => Fault::Panic(t[1].parse().unwrap()), x => panic!("fault {x}") }
+        match t[0] { "count" => Fault::Count, "cut" => Fault::Cut { i: t[1].parse().unwrap(), hold: t[2] == "hold", commit_after: t.get(3).map(|x| *x == "commit").unwrap_or(true) },
+            "cutat" => Fault::CutAt { label: t[1].to_string(), occ: t[2].parse().unwrap(), hold: t[3] == "hold", commit_after: t.get(4).map(|x| *x == "commit").unwrap_or(true) },
+            "panic" => Fault::Panic(t[1].parse().unwrap()), x => panic!("fault {x}") }
     }
 }
 
@@ -384,7 +436,7 @@ enum Driven<T> { Done(T), Cut, Timeout }
 async fn drive<T>(fut: impl Future<Output = T>, cutting: bool, drop_panic: &mut Option<String>) -> Driven<T> {
     let s = sink();
     let mut fut = Box::pin(fut);
-    let r = tokio::time::timeout(Duration::from_secs(4), async {
+    let r = tokio::time::timeout(Duration::from_millis(2500), async {
         if cutting {
             tokio::select! { biased; v = &mut fut => Some(v), _ = s.notify.notified() => None }
         } else { Some((&mut fut).await) }
@@ -394,17 +446,27 @@ async fn drive<T>(fut: impl Future<Output = T>, cutting: bool, drop_panic: &mut 
         Ok(Some(v)) => Driven::Done(v),
         Ok(None) => {
             if let Err(p) = std::panic::catch_unwind(AssertUnwindSafe(move || drop(fut))) { *drop_panic = Some(payload_str(&p)); }
+            s.mark("0 dropped");
             Driven::Cut
         }
     }
 }
 
+/// like `drive` without cutting, but while a continuation is being held: if the call turns out to wait for the
+/// held continuation (a legitimate wait), the continuation is released and the call awaited to its end
+async fn drive_soft<T>(fut: impl Future<Output = T>, held: bool, blocked: &mut bool, drop_panic: &mut Option<String>) -> Driven<T> {
+    if !held { return drive(fut, false, drop_panic).await; }
+    let mut fut = Box::pin(fut);
+    let early = tokio::select! { biased; v = &mut fut => Some(v), _ = tokio::time::sleep(Duration::from_millis(60)) => None };
+    match early { Some(v) => Driven::Done(v), None => { *blocked = true; sink().release(); drive(fut, false, drop_panic).await } }
+}
+
 async fn settle() {
     let s = sink();
     for _ in 0..64 { tokio::task::yield_now().await; }
-    for _ in 0..40 {
+    for _ in 0..8 {
         if s.quiescence().is_empty() { break; }
-        tokio::time::sleep(Duration::from_millis(2)).await;
+        tokio::time::sleep(Duration::from_millis(1)).await;
         for _ in 0..16 { tokio::task::yield_now().await; }
     }
     for _ in 0..16 { tokio::task::yield_now().await; }
@@ -423,7 +485,13 @@ impl<'a> Judge<'a> {
             }
         }
     }
-    fn expected(&self, k: u32) -> i64 { from_scratch(self.p, &self.truth, k) }
+    /// an external node that was never computed reads the current world when it is first computed
+    fn expected(&self, k: u32) -> i64 {
+        let mut t = self.truth.clone();
+        for e in 0..self.p.nodes.len() as u32 { if self.p.kind(e) == Kind::External && !t.ext.contains_key(&e) { t.ext.insert(e, *self.world.get(&e).unwrap_or(&0)); } }
+        from_scratch(self.p, &t, k)
+    }
+    fn ext_now(&self, k: u32) -> i64 { self.truth.ext.get(&k).copied().unwrap_or(*self.world.get(&k).unwrap_or(&0)) }
 }
 
 fn all_keys_round(p: &Program) -> Vec<u32> { (0..p.nodes.len() as u32).rev().collect() }
@@ -517,12 +585,12 @@ async fn run_fault<V: Variant>(case: &Case, target: usize, fault: &Fault, kv: &M
         // ------------------------------------------------------------------ the target
         sh.log.lock().unwrap().clear();
         match (op, fault) {
-            (Op::Round(ks), Fault::Count) | (Op::Round(ks), Fault::Cut { .. }) => {
+            (Op::Round(ks), Fault::Count) | (Op::Round(ks), Fault::Cut { .. }) | (Op::Round(ks), Fault::CutAt { .. }) => {
                 ok = probe(&engine, &sh, &mut j, idx, &mut out).await;
                 if !ok { break; }
                 let te = engine.clone().tracked().await;
-                let cutting = matches!(fault, Fault::Cut { .. });
-                s.set_mode(match fault { Fault::Cut { i, .. } => Mode::Cut(*i), _ => Mode::Count });
+                let cutting = fault.is_cut();
+                s.set_mode(fault.mode());
                 let sh2 = sh.clone();
                 let te2 = &te;
                 let r = drive(async move { let mut vs = vec![]; for k in ks { vs.push(query_key(&sh2, te2, *k).await); } vs }, cutting, &mut drop_panic).await;
@@ -534,7 +602,7 @@ async fn run_fault<V: Variant>(case: &Case, target: usize, fault: &Fault, kv: &M
                     Driven::Timeout => { fail!("C05:hang", "op {idx}: target round did not complete"); hang = true; }
                     Driven::Cut => {
                         drop(te);
-                        let hold = matches!(fault, Fault::Cut { hold: true, .. });
+                        let hold = fault.hold();
                         if hold { held = true; out.held_mode = true; for _ in 0..8 { tokio::task::yield_now().await; } } else { s.release(); settle().await; }
                     }
                 }
@@ -566,11 +634,14 @@ async fn run_fault<V: Variant>(case: &Case, target: usize, fault: &Fault, kv: &M
             }
             (Op::Session(ws), _) => {
                 // call-by-call; the pause counter runs across all calls of the session
-                let (cut_i, commit_after) = match fault { Fault::Cut { i, commit_after, .. } => (Some(*i), *commit_after), _ => (None, true) };
-                s.set_mode(match cut_i { Some(i) => Mode::Cut(i), None => Mode::Count });
+                let commit_after = fault.commit_after();
+                let hold_call = fault.hold();
+                s.set_mode(fault.mode());
+                let ext_before: BTreeMap<u32, i64> = (0..p.nodes.len() as u32).filter(|k| p.kind(*k) == Kind::External).map(|k| (k, j.ext_now(k))).collect();
                 for w in ws { if let Write::World(k, v) = w { sh.world.lock().unwrap().insert(*k, *v); j.world.insert(*k, *v); } }
-                let cutting = cut_i.is_some();
+                let cutting = fault.is_cut();
                 let mut was_cut = false;
+                let mut applied_refresh = false;
                 match drive(engine.input_session(), cutting, &mut drop_panic).await {
                     Driven::Timeout => { fail!("C05:hang", "op {idx}: input_session() did not complete"); hang = true; }
                     Driven::Cut => { was_cut = true; /* no session object exists */ }
@@ -579,24 +650,30 @@ async fn run_fault<V: Variant>(case: &Case, target: usize, fault: &Fault, kv: &M
                         for w in ws {
                             if was_cut && !commit_after { break; }
                             match w {
-                                Write::Set(k, v) => match drive(sess.set_input(In(*k), *v), cutting && !was_cut, &mut drop_panic).await {
-                                    Driven::Done(_) => applied.push(w.clone()),
-                                    Driven::Cut => { was_cut = true; let old = j.truth.inputs.get(k).copied(); j.uncertain_in.insert(*k, old.into_iter().chain(std::iter::once(*v)).collect()); s.release(); settle().await; }
+                                Write::Set(k, v) => match (if was_cut { drive_soft(sess.set_input(In(*k), *v), hold_call, &mut out.blocked_on_held, &mut drop_panic).await } else { drive(sess.set_input(In(*k), *v), cutting, &mut drop_panic).await }) {
+                                    Driven::Done(_) => { applied.push(w.clone()); j.session_applied_partial(std::slice::from_ref(w)); }
+                                    Driven::Cut => { was_cut = true; let old = j.truth.inputs.get(k).copied(); j.uncertain_in.insert(*k, old.into_iter().chain(std::iter::once(*v)).collect()); if hold_call { out.held_mode = true; for _ in 0..4 { tokio::task::yield_now().await; } } else { s.release(); settle().await; } }
                                     Driven::Timeout => { fail!("C05:hang", "op {idx}: set_input did not complete"); hang = true; break; }
                                 },
-                                Write::Refresh => match drive(sess.refresh::<Ex>(), cutting && !was_cut, &mut drop_panic).await {
-                                    Driven::Done(_) => applied.push(w.clone()),
-                                    Driven::Cut => { was_cut = true; for k in 0..p.nodes.len() as u32 { if p.kind(k) == Kind::External { let old = j.truth.ext.get(&k).copied().unwrap_or(0); let new = *j.world.get(&k).unwrap_or(&0); j.uncertain_ex.insert(k, vec![old, new]); } } s.release(); settle().await; }
+                                Write::Refresh => match (if was_cut { drive_soft(sess.refresh::<Ex>(), hold_call, &mut out.blocked_on_held, &mut drop_panic).await } else { drive(sess.refresh::<Ex>(), cutting, &mut drop_panic).await }) {
+                                    Driven::Done(_) => { applied_refresh = true; applied.push(w.clone()); j.session_applied_partial(std::slice::from_ref(w)); }
+                                    Driven::Cut => { was_cut = true; if hold_call { out.held_mode = true; for _ in 0..4 { tokio::task::yield_now().await; } } else { s.release(); settle().await; } }
                                     Driven::Timeout => { fail!("C05:hang", "op {idx}: refresh did not complete"); hang = true; break; }
                                 },
                                 Write::World(..) => {}
                             }
                         }
-                        j.session_applied_partial(&applied);
                         if !hang {
                             if was_cut && !commit_after { drop(sess); }
                             else {
-                                match drive(sess.commit(), cutting && !was_cut, &mut drop_panic).await {
+                                let cfut = sess.commit();
+                                let r = if hold_call && was_cut {
+                                    // the cut call's continuation is still suspended: commit now; if the commit waits for it, let it go
+                                    let mut cfut = Box::pin(cfut);
+                                    let early = tokio::select! { biased; v = &mut cfut => Some(v), _ = tokio::time::sleep(Duration::from_millis(100)) => None };
+                                    match early { Some(()) => Driven::Done(()), None => { out.blocked_on_held = true; s.release(); drive(cfut, false, &mut drop_panic).await } }
+                                } else { drive(cfut, cutting && !was_cut, &mut drop_panic).await };
+                                match r {
                                     Driven::Done(()) => {}
                                     Driven::Cut => { was_cut = true; }
                                     Driven::Timeout => { fail!("C05:hang", "op {idx}: commit did not complete"); hang = true; }
@@ -608,7 +685,13 @@ async fn run_fault<V: Variant>(case: &Case, target: usize, fault: &Fault, kv: &M
                 out.pauses = s.st.lock().unwrap().labels.clone();
                 out.cut_label = s.st.lock().unwrap().reached.clone();
                 s.set_mode(Mode::Off);
-                if was_cut { s.release(); settle().await; }
+                if was_cut {
+                    s.release(); settle().await;
+                    // the world cells were written by the harness; whether the refresh took effect is decided by the first read
+                    if ws.iter().any(|w| matches!(w, Write::World(..))) && !(applied_refresh) {
+                        for (k, old) in &ext_before { let new = *j.world.get(k).unwrap_or(&0); j.truth.ext.insert(*k, *old); j.uncertain_ex.insert(*k, vec![*old, new]); }
+                    }
+                }
             }
         }
         out.execs_in_target = sh.log.lock().unwrap().iter().map(|e| e.key).collect();
@@ -623,6 +706,7 @@ async fn run_fault<V: Variant>(case: &Case, target: usize, fault: &Fault, kv: &M
                 fail!(sig, "op {idx}: after the fault at {} and after detached continuations ran: {}", out.cut_label.clone().unwrap_or_default(), q.join(" "));
             }
             out.summary = s.summary();
+            s.mark(&format!("0 settled\t{}", s.model_summary()));
             // the cut-short / panicked round is issued again
             if let Op::Round(ks) = op { ok = probe(&engine, &sh, &mut j, idx, &mut out).await && round(&engine, &sh, ks, &mut j, idx, &mut out).await; }
         }
@@ -634,7 +718,15 @@ async fn run_fault<V: Variant>(case: &Case, target: usize, fault: &Fault, kv: &M
         ok = probe(&engine, &sh, &mut j, case.ops.len(), &mut out).await && round(&engine, &sh, &ks, &mut j, case.ops.len(), &mut out).await;
     }
     settle().await;
-    for h in take_panics() { if !(matches!(fault, Fault::Panic(_)) && (h.contains("injected executor panic") || h.contains("JoinError"))) { fail!("C05:later-panic", "panic hook: {h}"); } }
+    s.mark(&format!("0 end\t{}", s.model_summary()));
+    for h in take_panics() {
+        if matches!(fault, Fault::Panic(_)) && (h.contains("injected executor panic") || h.contains("JoinError")) { continue; }
+        if h.contains("InputSession transaction has already been committed") {
+            fail!("C05:later-panic:set-input-after-commit", "panic hook: {h}");
+            // the guarded continuation died with that panic: its `guarded(entered != completed)` entry has the same cause
+            for f in out.fails.iter_mut() { if f.0 == "C05:quiescence:guarded" { f.0 = "C05:quiescence:guarded:set-input-after-commit".into(); } }
+        } else { fail!("C05:later-panic", "panic hook: {h}"); }
+    }
     out.detached = s.st.lock().unwrap().guard_detach;
     out.trace = std::mem::take(&mut s.st.lock().unwrap().trace);
     // ------------------------------------------------------------------ shutdown
@@ -659,7 +751,7 @@ async fn run_fault<V: Variant>(case: &Case, target: usize, fault: &Fault, kv: &M
             let te = e2.clone().tracked().await;
             for k in all_keys_round(p) {
                 match drive(AssertUnwindSafe(query_key(&sh2, &te, k)).catch_unwind(), false, &mut dp).await {
-                    Driven::Done(Ok(v)) => { let exp = j.expected(k); if v != exp { fail!("C05:persist-value", "after shutdown and re-open, key {k} = {v}, expected {exp} (the store misses committed batches)"); break; } }
+                    Driven::Done(Ok(v)) => { let exp = j.expected(k); if v != exp { fail!(if out.held_mode { "C05:persist-value:after-held-continuation" } else { "C05:persist-value" }, "after shutdown and re-open, key {k} = {v}, expected {exp} (the store misses committed batches)"); break; } }
                     Driven::Done(Err(pl)) => { fail!("C05:persist-panic", "after shutdown and re-open, query {k} panicked: {}", payload_str(&pl).chars().take(160).collect::<String>()); break; }
                     _ => { fail!("C05:persist-hang", "after re-open query {k} hung"); break; }
                 }
@@ -741,42 +833,45 @@ fn is_guarded_label(l: &str) -> bool {
     b.starts_with("x.g.") || b.starts_with("sc.") || b.starts_with("c.g.") || b.starts_with("cq.") || b == "p.after" || b.starts_with("bp.g.") || b.starts_with("in.set.g") || b.starts_with("in.ref.g") || b.starts_with("in.commit") || b.starts_with("si.")
 }
 
-fn child_case<V: Variant>(case: &Case, max_cuts: u64, seed: u64, only: Option<(usize, Fault)>) {
+fn child_case<V: Variant>(case: &Case, max_cuts: u64, seed: u64, only: Option<(usize, Fault)>, resume_after: Option<String>) {
     use std::io::Write as _;
     let so = std::io::stdout();
     let emit = |l: String| { let mut o = so.lock(); writeln!(o, "{l}").unwrap(); o.flush().unwrap(); };
     register_ids(&case.program);
     let mut rng = Rng::new(seed ^ 0xC05);
-    // baseline: the whole history without a fault
     let targets: Vec<usize> = match &only { Some((t, _)) => vec![*t], None => (1..case.ops.len()).collect() };
+    // after a child died in a run, the parent restarts it with `--resume-after <that run>`: everything up to and
+    // including that run is skipped (the enumeration is a deterministic function of case and seed)
+    let mut skipping = resume_after.is_some();
+    // baseline: the whole history without a fault
     emit(format!("P baseline"));
     let base = run_blocking::<V>(case, usize::MAX, &Fault::Count, false);
     let base_mis: BTreeSet<(usize, u32)> = base.mismatches.iter().map(|m| (m.0, m.1)).collect();
-    for (sig, d) in &base.fails { emit(format!("B {}\t{}", esc(sig), esc(d))); }
-    for m in &base.mismatches { emit(format!("B C01:value\top {} key {} got {} expected {}", m.0, m.1, m.2, m.3)); }
-    let report = |t: usize, f: &Fault, o: &RunOut| {
-        let mut c5 = 0;
-        for (sig, d) in &o.fails { emit(format!("F {}\t{}\t{} {}", esc(sig), esc(d), t, f.render())); c5 += 1; }
+    if !skipping {
+        for (sig, d) in &base.fails { emit(format!("B {}\t{}", esc(sig), esc(d))); }
+        for m in &base.mismatches { emit(format!("B C01:value\top {} key {} got {} expected {}", m.0, m.1, m.2, m.3)); }
+    }
+    let mut one = |t: usize, f: &Fault, expect_label: Option<&str>, skipping: &mut bool| {
+        let tag = format!("{} {}", t, f.render());
+        if *skipping { if resume_after.as_deref() == Some(tag.as_str()) { *skipping = false; } return; }
+        emit(format!("P {tag}\t{}", expect_label.unwrap_or("-")));
+        let o = run_blocking::<V>(case, t, f, true);
+        for (sig, d) in &o.fails { emit(format!("F {}\t{}\t{tag}", esc(sig), esc(d))); }
         for m in &o.mismatches {
-            let kind = if base_mis.contains(&(m.0, m.1)) { "M" } else if !base_mis.is_empty() { "S" } else { c5 += 1; "V" };
+            let kind = if base_mis.contains(&(m.0, m.1)) { "M" } else if !base_mis.is_empty() { "S" } else { "V" };
             let vsig = if o.held_mode { "C05:value:stale-after-held-continuation" } else { "C05:value" };
-            emit(format!("{kind} {vsig}\top {} key {} got {} expected {} (fault at {})\t{} {}", m.0, m.1, m.2, m.3, o.cut_label.clone().unwrap_or_default(), t, f.render()));
+            emit(format!("{kind} {vsig}\top {} key {} got {} expected {} (fault at {})\t{tag}", m.0, m.1, m.2, m.3, o.cut_label.clone().unwrap_or_default()));
         }
-        c5
+        emit(format!("R {tag}\t{}\t{}\t{}", o.cut_label.clone().unwrap_or("-".into()), o.summary, o.detached));
+        for l in &o.trace { emit(format!("T {l}")); }
+        if let (None, Some(l)) = (&o.cut_label, expect_label) { emit(format!("X {tag} expected {l}")); }
     };
     for t in targets {
-        if let Some((_, f)) = &only {
-            emit(format!("P {} {}", t, f.render()));
-            let o = run_blocking::<V>(case, t, f, true);
-            report(t, f, &o);
-            emit(format!("R {} {}\t{}\t{}", t, f.render(), o.cut_label.clone().unwrap_or("-".into()), o.summary));
-            for l in &o.trace { emit(format!("T {l}")); }
-            continue;
-        }
+        if let Some((_, f)) = &only { one(t, f, None, &mut skipping); continue; }
         emit(format!("P {} count", t));
         let cnt = run_blocking::<V>(case, t, &Fault::Count, false);
         let n = cnt.pauses.len() as u64;
-        emit(format!("N {} {} {}", t, n, cnt.pauses.iter().map(|l| l.split('@').next().unwrap().to_string()).collect::<Vec<_>>().join(",")));
+        if !skipping { emit(format!("N {} {} {}", t, n, cnt.pauses.iter().map(|l| l.split('@').next().unwrap().to_string()).collect::<Vec<_>>().join(","))); }
         // which cuts: all if few, else a seeded sample that always contains the first of every label
         let mut cuts: Vec<u64> = (1..=n).collect();
         if n > max_cuts {
@@ -786,33 +881,25 @@ fn child_case<V: Variant>(case: &Case, max_cuts: u64, seed: u64, only: Option<(u
             while (keep.len() as u64) < max_cuts { keep.insert(1 + rng.below(n)); }
             cuts = keep.into_iter().collect();
         }
+        let next_is_session = t + 1 < case.ops.len() && matches!(case.ops[t + 1], Op::Session(_));
         for i in cuts {
             let label = cnt.pauses[i as usize - 1].clone();
             let commit_after = rng.chance(1, 2);
-            let f = Fault::Cut { i, hold: false, commit_after };
-            emit(format!("P {} {}", t, f.render()));
-            let o = run_blocking::<V>(case, t, &f, false);
-            report(t, &f, &o);
-            emit(format!("R {} {}\t{}\t{}\t{}", t, f.render(), o.cut_label.clone().unwrap_or("-".into()), o.summary, o.detached));
-            if o.cut_label.is_none() { emit(format!("X {} {} expected {}", t, i, label)); }
-            // the adversarial twin: a guarded continuation stays suspended across the next committed session
-            if is_guarded_label(&label) && matches!(case.ops[t], Op::Round(_)) && t + 1 < case.ops.len() && matches!(case.ops[t + 1], Op::Session(_)) {
-                let f = Fault::Cut { i, hold: true, commit_after: true };
-                emit(format!("P {} {}", t, f.render()));
-                let o = run_blocking::<V>(case, t, &f, false);
-                report(t, &f, &o);
-                emit(format!("R {} {}\t{}\t{}\t{}", t, f.render(), o.cut_label.clone().unwrap_or("-".into()), o.summary, o.detached));
+            one(t, &Fault::Cut { i, hold: false, commit_after }, Some(&label), &mut skipping);
+            // the adversarial twin: a guarded continuation stays suspended (it is a spawned task that has not been
+            // scheduled yet) while the caller goes on: across the next committed session (round target), or across
+            // the commit of the same session (session-call target)
+            if is_guarded_label(&label) {
+                match &case.ops[t] {
+                    Op::Round(_) if next_is_session => one(t, &Fault::Cut { i, hold: true, commit_after: true }, Some(&label), &mut skipping),
+                    Op::Session(_) if !label.starts_with("in.commit") => one(t, &Fault::Cut { i, hold: true, commit_after: true }, Some(&label), &mut skipping),
+                    _ => {}
+                }
             }
         }
         if let Op::Round(_) = &case.ops[t] {
             let mut ks: Vec<u32> = cnt.execs_in_target.clone(); ks.sort(); ks.dedup();
-            for k in ks {
-                let f = Fault::Panic(k);
-                emit(format!("P {} {}", t, f.render()));
-                let o = run_blocking::<V>(case, t, &f, false);
-                report(t, &f, &o);
-                emit(format!("R {} {}\t{}\t{}\t{}", t, f.render(), o.cut_label.clone().unwrap_or("-".into()), o.summary, o.detached));
-            }
+            for k in ks { one(t, &Fault::Panic(k), None, &mut skipping); }
         }
     }
     emit("E".into());
@@ -831,7 +918,8 @@ fn main() {
         let variant = flag("--variant").unwrap_or("mem".into());
         let max_cuts: u64 = flag("--max-cuts").map(|x| x.parse().unwrap()).unwrap_or(40);
         let only = flag("--fault").map(|f| { let t: Vec<&str> = f.split_whitespace().collect(); (t[0].parse::<usize>().unwrap(), Fault::parse(&t[1..])) });
-        if variant == "db" { child_case::<DbCfg>(&case, max_cuts, a.seed, only); } else { child_case::<MemCfg>(&case, max_cuts, a.seed, only); }
+        let resume = flag("--resume-after");
+        if variant == "db" { child_case::<DbCfg>(&case, max_cuts, a.seed, only, resume); } else { child_case::<MemCfg>(&case, max_cuts, a.seed, only, resume); }
         return;
     }
     parent(a);
@@ -842,14 +930,18 @@ fn main() {
 // ------------------------------------------------------------------------------------------------
 struct Failure { sig: String, desc: String, case: String }
 
-fn run_child(exe: &std::path::Path, case_file: &str, variant: &str, max_cuts: u64, seed: u64, fault: Option<&str>, timeout: Duration) -> (Vec<String>, Option<String>) {
+fn run_child(exe: &std::path::Path, case_file: &str, variant: &str, max_cuts: u64, seed: u64, fault: Option<&str>, resume: Option<&str>, timeout: Duration) -> (Vec<String>, Option<String>) {
     use std::io::{BufRead, BufReader};
     let mut cmd = std::process::Command::new(exe);
     cmd.args(["--child", case_file, "--variant", variant, "--max-cuts", &max_cuts.to_string(), "--seed", &seed.to_string()]);
     if let Some(f) = fault { cmd.args(["--fault", f]); }
-    cmd.stdout(std::process::Stdio::piped()).stderr(std::process::Stdio::null());
+    if let Some(r) = resume { cmd.args(["--resume-after", r]); }
+    cmd.stdout(std::process::Stdio::piped()).stderr(std::process::Stdio::piped());
     let mut ch = cmd.spawn().unwrap();
     let so = ch.stdout.take().unwrap();
+    let se = ch.stderr.take().unwrap();
+    let errs: Arc<Mutex<Vec<String>>> = Default::default();
+    { let errs = errs.clone(); std::thread::spawn(move || { for l in BufReader::new(se).lines().flatten() { let mut e = errs.lock().unwrap(); e.push(l); if e.len() > 200 { e.remove(0); } } }); }
     let (tx, rx) = std::sync::mpsc::channel::<String>();
     std::thread::spawn(move || { for l in BufReader::new(so).lines().flatten() { if tx.send(l).is_err() { break; } } });
     let mut lines = vec![];
@@ -870,6 +962,10 @@ fn run_child(exe: &std::path::Path, case_file: &str, variant: &str, max_cuts: u6
         use std::os::unix::process::ExitStatusExt;
         let s = st.unwrap();
         died = Some(match (s.code(), s.signal()) { (Some(c), _) => format!("exit code {c}"), (_, Some(sig)) => format!("signal {sig}"), _ => "unknown".into() });
+        std::thread::sleep(Duration::from_millis(20));
+        let e = errs.lock().unwrap();
+        let tail: Vec<String> = e.iter().rev().take(3).rev().cloned().collect();
+        died = Some(format!("{} [stderr: {}]", died.unwrap(), tail.join(" / ")));
     }
     (lines, died)
 }
@@ -884,6 +980,7 @@ fn parent(a: Args) {
     let mut cases: Vec<(String, Case, Option<String>)> = vec![];
     let rest = a.rest.clone();
     let flag = |n: &str| rest.iter().position(|x| x == n).map(|i| rest[i + 1].clone());
+    let cfg_bits = flag("--cfg").unwrap_or("000".into());
     let variants: Vec<String> = flag("--variants").map(|v| v.split(',').map(|s| s.to_string()).collect()).unwrap_or(vec!["mem".into(), "db".into()]);
     if let Some(rp) = &a.replay {
         // replay file: optional first line `#fault <variant> <target> <fault…>`, then the case text
@@ -891,14 +988,14 @@ fn parent(a: Args) {
         let f = text.lines().find(|l| l.starts_with("#fault ")).map(|l| l[7..].to_string());
         cases.push(("replay".into(), Case::parse(&text.lines().filter(|l| !l.starts_with('#')).collect::<Vec<_>>().join("\n")), f));
     } else {
-        if let Ok(rd) = std::fs::read_dir(format!("{}/../corpus", env!("CARGO_MANIFEST_DIR"))) {
+        if !rest.iter().any(|x| x == "--no-corpus") { if let Ok(rd) = std::fs::read_dir(format!("{}/../corpus", env!("CARGO_MANIFEST_DIR"))) {
             let mut fs: Vec<_> = rd.flatten().map(|e| e.path()).filter(|p| p.file_name().unwrap().to_string_lossy().starts_with("C05-")).collect(); fs.sort();
             for f in fs {
                 let text = std::fs::read_to_string(&f).unwrap();
                 let fl = text.lines().find(|l| l.starts_with("#fault ")).map(|l| l[7..].to_string());
                 cases.push((f.file_name().unwrap().to_string_lossy().to_string(), Case::parse(&text.lines().filter(|l| !l.starts_with('#')).collect::<Vec<_>>().join("\n")), fl));
             }
-        }
+        } }
         for i in 0..n_cases { cases.push((format!("gen{i}"), gen_case(&mut rng, i), None)); }
     }
     let mut failures: Vec<Failure> = vec![];
@@ -920,13 +1017,18 @@ fn parent(a: Args) {
         for v in &variants {
             let (v_use, fault_s): (String, Option<String>) = match fl { Some(f) => { let mut it = f.splitn(2, ' '); (it.next().unwrap().to_string(), Some(it.next().unwrap().to_string())) } None => (v.clone(), None) };
             if fl.is_some() && v != &variants[0] { continue; }
-            let (lines, died) = run_child(&exe, &cf, &v_use, max_cuts, a.seed.wrapping_add(ci as u64), fault_s.as_deref(), Duration::from_secs(if quick { 240 } else { 900 }));
+            let mut resume: Option<String> = None;
+            let mut restarts = 0;
+            loop {
+            let (lines, died) = run_child(&exe, &cf, &v_use, max_cuts, a.seed.wrapping_add(ci as u64), fault_s.as_deref(), resume.as_deref(), Duration::from_secs(if quick { 240 } else { 900 }));
             let mut last_p = String::new();
+            let mut last_label = String::new();
             for l in &lines {
                 let (tag, body) = l.split_at(1);
                 let body = body.trim_start();
                 match tag {
-                    "P" => last_p = body.to_string(),
+                    "P" => { let mut it = body.split('\t'); last_p = it.next().unwrap().to_string(); last_label = it.next().unwrap_or("-").split('@').next().unwrap().to_string(); }
+                    "T" => { let mut it = body.splitn(2, '\t'); let op = it.next().unwrap(); out.line(op, it.next().unwrap_or("ok")); }
                     "N" => { let t: Vec<&str> = body.split(' ').collect(); *dist.entry(format!("{v_use}:targets")).or_default() += 1; *dist.entry(format!("{v_use}:pause_points")).or_default() += t[1].parse::<u64>().unwrap(); }
                     "R" => {
                         evals += 1;
@@ -937,7 +1039,7 @@ fn parent(a: Args) {
                         *label_hits.entry(lab.clone()).or_default() += 1;
                         if f.get(3).map(|d| *d != "0").unwrap_or(false) { *dist.entry(format!("{v_use}:runs_with_detached_continuation")).or_default() += 1; }
                         { use std::hash::{Hash, Hasher}; let mut h = std::collections::hash_map::DefaultHasher::new(); (&text, &v_use, f[0]).hash(&mut h); if f[1] != "-" { distinct.insert(h.finish()); } }
-                        out.line(&format!("{name} {v_use} {}", f[0]), &format!("{} | {}", f[1], f.get(2).unwrap_or(&"")));
+                        out.line(&format!("run {cfg_bits} {name} {v_use} {}", f[0]), "ok");
                     }
                     "F" | "V" => {
                         let f: Vec<&str> = body.split('\t').collect();
@@ -952,11 +1054,18 @@ fn parent(a: Args) {
                     _ => {}
                 }
             }
-            if let Some(d) = died {
-                let sig = format!("C05:process-{}", if d == "hang" { "hang".to_string() } else { "died".to_string() });
-                let replay = format!("#fault {v_use} {}\n{}", last_p, text);
-                *dist.entry(format!("fail:{sig}")).or_default() += 1;
-                failures.push(Failure { sig, desc: format!("[{name} {v_use}] child process {d} during run `{last_p}`"), case: replay });
+            match died {
+                Some(d) => {
+                    let sig = format!("C05:process-{}:{last_label}", if d == "hang" { "hang" } else { "died" });
+                    let replay = format!("#fault {v_use} {}\n{}", last_p, text);
+                    *dist.entry(format!("fail:{sig}")).or_default() += 1;
+                    if failures.iter().filter(|x| x.sig == sig).count() < 3 { failures.push(Failure { sig, desc: format!("[{name} {v_use}] child process {d} during run `{last_p}`"), case: replay }); }
+                    restarts += 1;
+                    if fault_s.is_some() || restarts > 400 || last_p == "baseline" || last_p.ends_with("count") { break; }
+                    resume = Some(last_p.clone());
+                }
+                None => break,
+            }
             }
         }
         if samples.len() < 3 { samples.push(text.clone()); }
